@@ -59,6 +59,11 @@ func VerifC03TimeWindowSeq(v *vrt.T) {
 		}
 	}
 	var seen []verifPt
+	type emittedWin struct {
+		pts  []edge.BatchPointMessage
+		want []verifPt
+	}
+	var sent []emittedWin // edges are buffered: a consumer may read a window after later points arrived
 	t := t0.UnixNano()
 	for i := 0; i < k; i++ {
 		if i > 0 {
@@ -117,6 +122,14 @@ func VerifC03TimeWindowSeq(v *vrt.T) {
 			}
 			v.Assert(b.Name() == "m" && b.Tags()["host"] == "a" && len(b.Tags()) == 1 && !b.Dimensions().ByName && b.Begin().SizeHint() == len(pts), "batch carries the group's name/tags/size")
 			v.Assert(b.GroupID() == group.ID, "batch group id")
+			sent = append(sent, emittedWin{pts, want})
+		}
+	}
+	for _, e := range sent {
+		for j := range e.pts {
+			if j < len(e.want) {
+				v.Assert(e.pts[j].Time().UnixNano() == e.want[j].t && e.pts[j].Fields()["i"] == interface{}(e.want[j].i), "an emitted window is not changed by later points")
+			}
 		}
 	}
 	v.Reach("end")
@@ -252,6 +265,11 @@ func VerifC03CountWindow(v *vrt.T) {
 	}
 	t := v.Time("t0", verifT2020-64, verifT2020+64).UnixNano()
 	var seen []verifPt
+	type emitted struct {
+		pts  []edge.BatchPointMessage
+		want []verifPt
+	}
+	var sent []emitted // edges are buffered: a consumer may read a window after later points arrived
 	for i := 1; i <= k; i++ {
 		t += int64(v.IntRange("dt", 0, 5))
 		msg, err := w.Point(edge.NewPointMessage("m", "db", "rp", dims, models.Fields{"i": int64(i)}, tags, time.Unix(0, t).UTC()))
@@ -278,6 +296,14 @@ func VerifC03CountWindow(v *vrt.T) {
 				}
 			}
 			v.Assert(b.Time().UnixNano() == t && b.Name() == "m" && b.Tags()["host"] == "a" && b.GroupID() == group.ID, "count window batch metadata")
+			sent = append(sent, emitted{pts, want})
+		}
+	}
+	for _, e := range sent {
+		for j := range e.pts {
+			if j < len(e.want) {
+				v.Assert(e.pts[j].Time().UnixNano() == e.want[j].t && e.pts[j].Fields()["i"] == interface{}(e.want[j].i), "an emitted count window is not changed by later points")
+			}
 		}
 	}
 	v.Reach("end")
